@@ -971,6 +971,7 @@ package fosite
 //@   modifies mapof(request.Form), request.State, fetched
 //@   ensures [C13.request-uri-preregistered] forall u string :: fetched[u] && !old(fetched[u]) ==> u == old(formget(request.Form, "request_uri")) && implements(request.Client, OpenIDConnectClient) && insl(cast(request.Client, OpenIDConnectClient).GetRequestURIs(), u)
 //@   assert @call(Set)#1 [C13.claims-copied-only-after-verification] oidcClient.GetRequestObjectSigningAlgorithm() == "" || oidcClient.GetRequestObjectSigningAlgorithm() == fmt.Sprintf("%s", token.Header["alg"])
+//@   ensures [C13.state-follows-request-object] err == nil ==> request.State == formget(request.Form, "state") || (request.State == old(request.State) && (forall k string :: (k in request.Form) == old(k in request.Form) && request.Form[k] == old(request.Form[k])))
 //@   ensures [C13.request-object-needs-openid-scope] !cast(RemoveEmpty(strings.Split(old(formget(request.Form, "scope")), " ")), Arguments).Has("openid") ==> err == nil && request.State == old(request.State) && (forall k string :: (k in request.Form) == old(k in request.Form) && request.Form[k] == old(request.Form[k]))
 
 // ---- C13: where tokens travel ----
@@ -1073,6 +1074,7 @@ package fosite
 //@   ensures [C10.rejection-is-invalid-client-or-request] at == "" && err != nil ==> ekind(err) == "invalid_client" || ekind(err) == "invalid_request"
 //@   ensures [C10.no-state-change-on-secret-path] at == "" ==> jti_seen == old(jti_seen)
 //@   assert @call(SetClientAssertionJWT)#1 [C15.assertion-claims-checked] client != nil && client == client_of[clientID] && implements(client, OpenIDConnectClient) && cast(client, OpenIDConnectClient).GetTokenEndpointAuthMethod() == "private_key_jwt" && typeis(claims["iss"], string) && unbox(claims["iss"], string) == clientID && typeis(claims["sub"], string) && unbox(claims["sub"], string) == clientID && typeis(claims["jti"], string) && jti == unbox(claims["jti"], string) && len(jti) > 0
+//@   assert @call(SetClientAssertionJWT)#1 [C15.assertion-has-numeric-expiry] (typeis(claims["exp"], float64) && $arg3 == 1000000000 * trunc(unbox(claims["exp"], float64))) || (typeis(claims["exp"], int64) && $arg3 == 1000000000 * unbox(claims["exp"], int64)) || (typeis(claims["exp"], json.Number) && jn_int_ok(unbox(claims["exp"], json.Number)) && $arg3 == 1000000000 * jn_int(unbox(claims["exp"], json.Number)))
 //@   ensures [C15.assertion-jti-marked-once] at == clientAssertionJWTBearerType && err == nil ==> (exists j string :: len(j) > 0 && !old(jti_seen[j]) && jti_seen == upd(old(jti_seen), j, true))
 //@   ensures [C15.assertion-rejected-changes-at-most-its-jti] at == clientAssertionJWTBearerType && err != nil ==> jti_seen == old(jti_seen) || (exists j string :: !old(jti_seen[j]) && jti_seen == upd(old(jti_seen), j, true))
 //@   ensures [C15.assertion-authenticates-registered-client] at == clientAssertionJWTBearerType && err == nil ==> result != nil && implements(result, OpenIDConnectClient) && cast(result, OpenIDConnectClient).GetTokenEndpointAuthMethod() == "private_key_jwt"
@@ -1130,6 +1132,10 @@ package fosite
 //@   ensures result != nil
 //@   ensures [C13.client-exists] err == nil && isPARRequest && old(form_parsed[r]) ==> result.GetClient() != nil && result.GetClient() == old(client_of)[old(formget(r.Form, "client_id"))] && result.GetClient().GetID() == old(formget(r.Form, "client_id"))
 //@   ensures isPARRequest ==> authn == old(authn)
+//@   ensures [C13.state-min-length] err == nil && isPARRequest ==> len(result.GetState()) >= (f.Config.GetMinParameterEntropy(ctx) > 0 ? f.Config.GetMinParameterEntropy(ctx) : MinParameterEntropy)
+//@   ensures [C13.state-is-the-effective-form-state] err == nil && isPARRequest ==> result.GetState() == formget(cast(result, *AuthorizeRequest).Form, "state")
+//@   ensures [C13.response-type-registered] err == nil && isPARRequest ==> len(result.GetResponseTypes()) > 0
+//@   ensures [C13.openid-needs-redirect-uri] err == nil && isPARRequest && result.GetRequestedScopes().Has("openid") ==> len(formget(cast(result, *AuthorizeRequest).Form, "redirect_uri")) > 0
 //@ func (*Fosite).NewPushedAuthorizeRequest
 //@   bridge
 //@   requires f != nil && r != nil && f.Store != nil && (forall c2 context.Context :: f.Config.GetSecretsHasher(c2) != nil)
@@ -1157,7 +1163,7 @@ package fosite
 //@   ensures [C13.concrete-response-meets-interface] forall k string :: (k in ar.GetParameters()) == (old(k in ar.GetParameters()) || k == key)
 //@ func (*Fosite).GetMinParameterEntropy
 //@   requires f != nil
-//@   ensures result > 0 && (f.Config.GetMinParameterEntropy(ctx) > 0 ==> result == f.Config.GetMinParameterEntropy(ctx))
+//@   ensures result == (f.Config.GetMinParameterEntropy(ctx) > 0 ? f.Config.GetMinParameterEntropy(ctx) : MinParameterEntropy)
 //@ func (*Fosite).parseAuthorizeScope
 //@   requires request != nil && request.Form != nil
 //@   modifies request.RequestedScope
@@ -1211,6 +1217,7 @@ package fosite
 //@ func (*Fosite).NewIntrospectionRequest
 //@   requires f != nil && r != nil && session != nil && f.Store != nil && (forall c2 context.Context :: f.Config.GetSecretsHasher(c2) != nil)
 //@   modifies everything
+//@   assert @call(IntrospectToken)#1 [C09.caller-lookup-uses-a-copy-of-the-session] $arg4 != nil && $arg4 != session
 //@   assert @call(checkClientSecret)#1 [C09.caller-authenticated] bearer_of(r) == "" && basic_ok(r) && unesc_ok(basic_user(r)) && unesc_ok(basic_pass(r)) && client == client_of[unesc(basic_user(r))] && clientSecret == unesc(basic_pass(r))
 //@   assert @call(IntrospectToken)#2 [C09.caller-authenticated] (bearer_of(r) != "" && token != bearer_of(r) && intro_accepts > old(intro_accepts)) || (bearer_of(r) == "" && secret_ok_n > old(secret_ok_n))
 //@   ensures [C09.inactive-nothing-but-false] err != nil ==> result != nil && !cast(result, *IntrospectionResponse).Active && cast(result, *IntrospectionResponse).AccessRequester == nil && cast(result, *IntrospectionResponse).TokenUse == ""
@@ -1233,3 +1240,12 @@ package fosite
 //@ func (*AccessResponse).GetTokenType
 //@   requires a != nil
 //@   ensures result == a.TokenType
+
+// The bcrypt hasher accepts exactly what bcrypt accepts (no shortcut for empty hashes or secrets), and hashes with the
+// configured cost (default 12).
+//@ func (*BCrypt).Compare
+//@   requires b != nil
+//@   ensures [C10.hasher-is-bcrypt] (result == nil) == (bcrypt_err(hash, data) == nil)
+//@ func (*BCrypt).Hash
+//@   requires b != nil && b.Config != nil
+//@   ensures [C10.hasher-is-bcrypt] err == nil ==> bcrypt_err(result, data) == nil
